@@ -365,7 +365,7 @@ func TestStyledRandom(t *testing.T) {
 		Draw: func(t *rapid.T) styledCase {
 			c := styledCase{S: drawFaultBytes(t, "s", 120), Single: rapid.Bool().Draw(t, "single")}
 			c.Styles = rapid.SliceOfN(rapid.IntRange(0, ref.NStyles-1), 1, 7).Draw(t, "styles")
-			if rapid.IntRange(0, 3).Draw(t, "split?") == 0 {
+			if rapid.IntRange(0, 3).Draw(t, "split?") == 3 {
 				c.Split = rapid.IntRange(1, 200).Draw(t, "split")
 			}
 			return c
@@ -588,8 +588,8 @@ func TestPrototextE2E(t *testing.T) {
 		Name: "prototext-e2e",
 		Rule: "goproto.proto.test.TestAllTypes (proto2: strings not UTF-8 validated) optional/repeated/oneof/map string and bytes fields holding fault-pool byte strings, and goproto.proto.test3.TestAllTypes (valid UTF-8 strings, arbitrary bytes); Marshal or Format with EmitASCII/Multiline/Indent drawn -> independent text reader + reference unescaper, and prototext.Unmarshal; non-trivial = some field has a byte >= 0x80 or a control byte",
 		Draw: func(t *rapid.T) e2eCase {
-			c := e2eCase{Proto3: rapid.IntRange(0, 4).Draw(t, "proto3") == 0, ASCII: rapid.Bool().Draw(t, "ascii"), Multiline: rapid.Bool().Draw(t, "multiline"),
-				Format: rapid.IntRange(0, 4).Draw(t, "format") == 0}
+			c := e2eCase{Proto3: rapid.IntRange(0, 4).Draw(t, "proto3") == 4, ASCII: rapid.Bool().Draw(t, "ascii"), Multiline: rapid.Bool().Draw(t, "multiline"),
+				Format: rapid.IntRange(0, 4).Draw(t, "format") == 4}
 			if c.Multiline {
 				c.Indent = rapid.SampledFrom([]string{"", " ", "\t", "    "}).Draw(t, "indent")
 			}
@@ -889,22 +889,22 @@ func TestEmitUnknown(t *testing.T) {
 		Name: "emit-unknown",
 		Rule: "well-formed field sequences (gen.FieldSeq: all wire types, nested groups, denormalised tags/lengths/end tags, fault-pool bytes payloads), optionally wrapped in up to 64 (occasionally 500) nested groups, installed with SetUnknown on TestAllTypes (and on a nested message); Marshal(EmitUnknown) / Format with EmitASCII/Multiline/Indent drawn; rendering read by the independent text reader and compared record by record with the reference splitter; non-trivial = >= 2 records including a group or bytes record",
 		Draw: func(t *rapid.T) unknownCase {
-			c := unknownCase{ASCII: rapid.Bool().Draw(t, "ascii"), Multiline: rapid.Bool().Draw(t, "multiline"), Format: rapid.IntRange(0, 3).Draw(t, "format") == 0,
-				Nested: rapid.IntRange(0, 3).Draw(t, "nested") == 0, WithKnown: rapid.IntRange(0, 3).Draw(t, "known") == 0}
+			c := unknownCase{ASCII: rapid.Bool().Draw(t, "ascii"), Multiline: rapid.Bool().Draw(t, "multiline"), Format: rapid.IntRange(0, 3).Draw(t, "format") == 3,
+				Nested: rapid.IntRange(0, 3).Draw(t, "nested") == 3, WithKnown: rapid.IntRange(0, 3).Draw(t, "known") == 3}
 			if c.Multiline {
 				c.Indent = rapid.SampledFrom([]string{"", " ", "\t"}).Draw(t, "indent")
 			}
 			c.Raw = gen.FieldSeq(4, 5, true, nil).Draw(t, "raw")
-			if rapid.IntRange(0, 2).Draw(t, "bytesrec") == 0 { // a bytes record with a fault-pool payload
+			if rapid.IntRange(0, 2).Draw(t, "bytesrec") == 2 { // a bytes record with a fault-pool payload
 				p := drawFaultBytes(t, "payload", 200)
 				c.Raw = ref.Tag(c.Raw, gen.FieldNum().Draw(t, "bnum"), 2)
 				c.Raw = ref.Varint(c.Raw, uint64(len(p)))
 				c.Raw = append(c.Raw, p...)
 			}
 			switch rapid.IntRange(0, 9).Draw(t, "deep?") {
-			case 0, 1:
+			case 7, 8:
 				c.Deep = rapid.IntRange(1, 64).Draw(t, "deep")
-			case 2:
+			case 9:
 				c.Deep = rapid.SampledFrom([]int{63, 64, 65, 100, 500}).Draw(t, "deeper")
 			}
 			if c.Deep > 0 {
